@@ -247,3 +247,121 @@ if __name__ == "__main__":
         for p, _ in rep.violations[:3]:
             d = json.load(open(p))
             print(d.get("diag_code"), d.get("reason"), d.get("first_diverging_label"), "\n   ", "\n    ".join(d.get("labels_before") or []))
+
+
+# ------------------------------------------------------------------------------------------------
+# oracles on implementation behaviour (C03)
+
+def wire_window_oracle(sc):
+    """What the peer can see.  Connection: 65535 + sum WINDOW_UPDATE(0) written - flow-controlled bytes the peer sent
+    never exceeds the configured target at the moment a WINDOW_UPDATE is written (nor 2^31-1).  Streams: the same with
+    the largest SETTINGS_INITIAL_WINDOW_SIZE the endpoint has announced so far as the bound."""
+    cfg = sc["cfg"]
+    target = cfg.get("initial_connection_window_size") or 65535
+    conn = 65535
+    max_init = 65535
+    streams = {}
+    for st in sc["trace"]:
+        op = st["op"]
+        if op.get("op") == "set_target_window" and st["res"] == "ok":
+            # a WINDOW_UPDATE may sit in the write buffer while the target is lowered: the bound is the largest
+            # target that has been in force so far
+            target = max(target, op.get("n", target))
+        if op.get("op") == "peer" and isinstance(op.get("what"), dict):
+            w = op["what"]
+            if "chaos" in w:
+                return None          # illegal peer traffic: the connection is about to fail
+            if w.get("t") == "DATA":
+                n = w["len"] + ((w["pad"] + 1) if w.get("pad") is not None else 0)
+                conn -= n
+                streams[w["sid"]] = streams.get(w["sid"], max_init) - n
+        for f in st["out"]:
+            if f["t"] == "SETTINGS" and not f.get("ack"):
+                for (i, v) in f.get("params", []):
+                    if i == 4:
+                        delta = v - max_init if v > max_init else 0
+                        max_init = max(max_init, v)
+                        for k in streams:
+                            streams[k] += delta
+            if f["t"] == "WINDOW_UPDATE":
+                if f["sid"] == 0:
+                    conn += f["inc"]
+                    if conn > max(target, 65535) or conn > 2**31 - 1:
+                        return {"step": st["i"], "why": "connection window advertised beyond the configured target", "visible_window": conn, "target": target}
+                else:
+                    streams[f["sid"]] = streams.get(f["sid"], max_init) + f["inc"]
+                    if streams[f["sid"]] > max_init:
+                        return {"step": st["i"], "why": "stream window advertised beyond the configured initial window", "sid": f["sid"],
+                                "visible_window": streams[f["sid"]], "largest_initial_window_announced": max_init}
+    return None
+
+
+def quiescence_oracle(sc):
+    """At the end of a settled run (snapshot of the last step): if nothing is in flight (the application released
+    everything it was given) the windows are back: connection window > 2/3 of the target or >= target; the same for
+    every stream that is still receiving and whose receive handle is alive.  Streams whose RecvStream was dropped
+    are the known finding KF-C03-1 (stream window neither charged nor re-credited after the handle is dropped)."""
+    if not sc.get("settled"):
+        return None, None
+    last = sc["trace"][-1]
+    sn = last.get("snap")
+    if not sn:
+        return None, None
+    if recv_teardown(sc):
+        return None, None
+    c = sn["conn"]
+    cfg = sc["cfg"]
+    target = cfg.get("initial_connection_window_size") or 65535
+    for st in sc["trace"]:
+        if st["op"].get("op") == "set_target_window" and st["res"] == "ok":
+            target = st["op"].get("n", target)
+    if last.get("io", {}).get("inbound", 0) != 0:
+        return None, None
+    viol = None
+    known = None
+    if c["recv_in_flight_data"] == 0 and target > 0:
+        w = c["recv_flow_window"]
+        if not (w >= target or 3 * w > 2 * target):
+            viol = {"why": "connection window not restored although nothing is in flight", "window": w, "target": target}
+    init = c["recv_init_window_sz"]
+    for s in sn["streams"]:
+        recv_open = s["state"].startswith("Open") and "remote: Streaming" in s["state"] or s["state"].startswith("HalfClosedLocal(Streaming")
+        if not recv_open or s["in_flight_recv_data"] != 0 or init <= 0 or not s["linked"]:
+            continue
+        w = s["recv_window"]
+        short = not (w >= init or 3 * w > 2 * init)
+        if short and s["is_pending_window_update"]:
+            continue
+        if short:
+            if not s["is_recv"]:
+                known = "KF-C03-1 stream window left short after the receive handle was dropped (stream %d: window %d of %d)" % (s["id"], w, init)
+            elif viol is None:
+                viol = {"why": "stream window not restored although the application released everything", "stream": s["id"], "window": w, "initial": init}
+    return viol, known
+
+
+def recv_teardown(sc):
+    return teardown_step(sc["trace"]) is not None
+
+
+def oracle_recvflow(rep, scs):
+    n_viol = 0
+    nontriv = 0
+    known = 0
+    for sc in scs:
+        v = wire_window_oracle(sc)
+        q, k = quiescence_oracle(sc)
+        if any(f["t"] == "WINDOW_UPDATE" for st in sc["trace"] for f in st["out"]):
+            nontriv += 1
+        if k:
+            known += 1
+            rep.known(k.split(" (stream")[0])
+        v = v or q
+        if v:
+            n_viol += 1
+            if n_viol <= 3:
+                rep.violation("failing-input", {"oracle": "receive windows on the wire / at quiescence", "violation": v,
+                                                "scenario": {"cfg": sc["cfg"], "seed": sc.get("seed"), "i": sc.get("i"),
+                                                             "trace": [{"op": st["op"]} for st in sc["trace"]]}})
+    rep.oracle_runs.append({"name": "recv-window-oracle", "cases": len(scs), "nontrivial": nontriv, "failures": n_viol, "known_finding_hits": known})
+    return n_viol
